@@ -485,10 +485,20 @@ class PrintNode(visitor.Visitor):
         return ".."
 
     def visit_BinaryOp(self, node):
-        return self.visit(node.left) + node.op + self.visit(node.right)
+        left = self.visit(node.left)
+        right = self.visit(node.right)
+        if right[:1] in ("+", "-"):
+            # "1--1" is not valid C ("--" is a single token) and Fortran
+            # does not allow two consecutive operators.
+            right = "(" + right + ")"
+        return left + node.op + right
 
     def visit_UnaryOp(self, node):
-        return node.op + self.visit(node.node)
+        operand = self.visit(node.node)
+        if operand[:1] in ("+", "-"):
+            # "--1" would be read as a decrement.
+            operand = "(" + operand + ")"
+        return node.op + operand
 
     def visit_ParenExpr(self, node):
         return "(" + self.visit(node.node) + ")"
